@@ -314,13 +314,19 @@ func (g *gen) randomDef() *Def {
 	if rng.Intn(3) == 0 {
 		d.Opts = "c"
 	}
+	fold := d.Opts == "c"
+	if rng.Intn(4) == 0 {
+		// -disableTraits on a definition without trait columns: "every option setting" of the property;
+		// the constants of a random definition are laid out in any source order
+		d.Opts = strings.TrimPrefix(d.Opts, "-") + "D"
+	}
 	nTypes := []int{1, 1, 1, 1, 2, 2, 2, 3, 3, 4}[rng.Intn(10)]
 	var perType [][][]Item
 	for ti := 0; ti < nTypes; ti++ {
 		kind := g.nextKind()
 		t := fmt.Sprintf("E%d%c", n, 'a'+ti)
 		d.Types = append(d.Types, TypeD{Name: t, Kind: kind})
-		nm := &namer{rng: rng, prefix: fmt.Sprintf("C%d%c", n, 'a'+ti), fold: d.Opts == "c", used: map[string]bool{}}
+		nm := &namer{rng: rng, prefix: fmt.Sprintf("C%d%c", n, 'a'+ti), fold: fold, used: map[string]bool{}}
 		perType = append(perType, g.randomConsts(t, kind, nm))
 	}
 	g.layout(d, perType, n)
@@ -370,6 +376,9 @@ func (g *gen) systematic() []*Def {
 				d := &Def{Opts: "-", Types: []TypeD{{Name: t, Kind: kind}}}
 				if (n % 2) == 0 {
 					d.Opts = "c"
+				}
+				if (n % 3) == 0 {
+					d.Opts = strings.TrimPrefix(d.Opts, "-") + "D" // -disableTraits: no effect without trait columns
 				}
 				nDistinct := nC
 				if dups {
